@@ -318,12 +318,6 @@ def run(tier, seed, replay_path=None):
         if r.violated:
             o.violate("spec-invariant", {"violated": r.violated}, r.stdout_path)
         gen = [x["v"]["src"] for x in r.by_tag("case")]
-        if deep:
-            r4 = tlc.run("DecGlobals", tlc.cfg_text(constants=dict(Mode="gen", MaxStmts=4), invariants=["FoldEqualsDeclarative"]),
-                         workdir=wd, keep_records=False, timeout=3000)
-            o.add_tlc(r4, "DecGlobals gen: files of <= 4 statements (invariant only)")
-            if r4.violated:
-                o.violate("spec-invariant", {"violated": r4.violated}, r4.stdout_path)
         for inv in ("NoOverride", "NoLSError"):
             rr = tlc.run("DecGlobals", tlc.cfg_text(constants=dict(Mode="gen", MaxStmts=2), invariants=[inv]), workdir=wd,
                          keep_records=False)
